@@ -407,5 +407,29 @@ func (tr *Tracer) finish(st *state, end EndKind, ret []*Sym) {
 	for e := st.events; e != nil; e = e.prev {
 		evs[e.n] = e.ev
 	}
-	tr.traces = append(tr.traces, &Trace{Entry: tr.entry, Events: evs, End: end, Ret: ret, Params: tr.params, Cut: st.cut})
+	t := &Trace{Entry: tr.entry, Events: evs, End: end, Ret: ret, Params: tr.params, Cut: st.cut}
+	// a returned value the path has established to be nil is the nil constant (`return err` under `err == nil`)
+	if end == EndReturn && len(ret) > 0 {
+		var facts []Fact
+		for i, r := range ret {
+			if r == nil || r.isNilConst() || r.Typ == nil {
+				continue
+			}
+			switch r.Typ.Underlying().(type) {
+			case *types.Interface, *types.Pointer, *types.Slice, *types.Map:
+			default:
+				continue
+			}
+			if facts == nil {
+				facts = t.factsBefore(len(evs))
+			}
+			if hasFact(facts, func(f Fact) bool { return f.X.Key() == r.Key() && f.Op == token.EQL && f.Y.isNilConst() }) {
+				nr := make([]*Sym, len(ret))
+				copy(nr, t.Ret)
+				nr[i] = &Sym{Kind: KConst, Typ: r.Typ}
+				t.Ret = nr
+			}
+		}
+	}
+	tr.traces = append(tr.traces, t)
 }
